@@ -40,7 +40,14 @@ def stmtPool : Array String := #[sensitiveStmt, sensitiveStmt, sensitiveStmt, se
   "A(x) I('zq4;alert( 1) Bdir(</script><zq6)",
   "A(a) {I(b) [XOR] I(c)} Bdir(d)",
   "A(x", "plain words without components", "A(a [AND] b [OR] c)", "A(one) A(one)",
-  "A,p(only a property)", "A(<!--zq5) I(&amp; &lt;)"]
+  "A,p(only a property)", "A(<!--zq5) I(&amp; &lt;)",
+  -- rejected statements whose error message quotes user text
+  "A(actor) I(act) Bdir((<zq1> facilities [AND] farms [OR] \"zq3onload= shops))",
+  "A(actor) I(act) D{A(</textarea><zq2) I(approves)}",
+  "A(actor) I(act) Cac{Cac{A(<zq1>) I(y)} [AND] Bdir{A(\"zq3onload=) I(w)}}",
+  "A(<zq1> unbalanced I(act)", "A(<zq1>) A(<zq1>) I(</script><zq6)", "<zq1> no component \"zq3onload= at all",
+  "A(actor) I(act) Cac{A(a) I(b)} [AND] Cac{A(<zq1>) I(d)} [XOR] Cac{A(e) I('zq4;alert( f)}",
+  "A(actor) I(act) {I(<zq1>) [XOR] I(c)} {Bdir(</script><zq6) [OR] Bdir(e)}", "A(actor) I(()) Bdir(<zq1> [AND] )"]
 
 def origPool : Array String := #["", "The original statement.", "orig </textarea><zq2 text", "a|b\nc \"q\" <zq1>", "Ünïcode ö"]
 def idPool : Array String := #["", "1", "123", "7.a", "\"zq3onload=", "<zq1>"]
